@@ -236,6 +236,14 @@ def ufn(name, *args):
     return f(*args)
 
 
+def upred(name, *args):
+    return bool(ufn(name, *args))
+
+
+def uint(name, *args):
+    return int(ufn(name, *args))
+
+
 def bind_ufn(name, fn):
     _UFN[name] = fn
 
